@@ -22,7 +22,62 @@ T_DEDUCTIVE = ('contract-based deductive verification of the real functions: pyv
                'ast against sidecar contracts (pre/post, exceptional post, loop invariants + variants, frames) and z3 discharges them '
                'for all inputs; counter-models are replayed on the real code in CPython')
 
-prop('C07', title='Packet decoders accept exactly the well-formed packets', level='proof', bounded=[],
+T_MIXED = ('contract-based deductive verification of the decisive real functions (pyvc: verification conditions from the real ast '
+           'against sidecar contracts, discharged by z3) plus a bounded stand-in: the same clauses as run-time contracts on the '
+           'real code over an enumerated domain (labelled bounded, never counted as proved)')
+T_BOUNDED = ('run-time contracts on the real functions over an enumerated, stated domain (bounded stand-in of the contract '
+             'family), with the functions that could be brought under deductive contracts proved by pyvc/z3')
+SH = {'quick': 8, 'thorough': 16}
+
+prop('C01', title='Interest and Data packets survive an encode/decode round trip', level='proof',
+     bounded=[('bounded.c01', 'run', SH)],
+     level_text='Unbounded proof for the var-number codec, shrink_length (all length-width pairs), every Field encoder against its announced '
+                'size, SignatureValueField with a signer that returns fewer bytes than reserved, and make_data with the real field list '
+                'unrolled: exactly one well-formed element with exact, shortest-form lengths for every name form / MetaInfo / content / '
+                'signer. make_interest and the parse-back equality are covered by the bounded stand-in only.',
+     level_note='Trusted: pyvc, z3, builtin models, Signer interface (assumed), nested plain models via the generic TlvModel contracts. '
+                'Bounded part: round trips over boundary sizes x all shipped signers.',
+     technique=T_MIXED)
+prop('C02', title='Signatures and parameter digests cover the specified bytes; tampering detected', level='proof',
+     bounded=[('bounded.c02', 'run', SH)],
+     level_text='Unbounded proof (Data, encode side) that the signer is handed exactly one range from the first byte of the Name to the start '
+                'of the SignatureValue element and the value buffer right after its header, before and after the length repair. Interest-side '
+                'ranges, parse-side ranges, acceptance by the matching verifier and tamper rejection are a bounded stand-in with real crypto.',
+     level_note='Unforgeability of RSA/ECDSA/HMAC/Ed25519 and SHA-256 are assumed (Cryptodome/hashlib); "no differing packet is accepted" '
+                'is only sampled.',
+     technique=T_MIXED)
+prop('C03', title='Every expressed Interest completes exactly once with the right outcome', level='exploration',
+     bounded=[('bounded.c03', 'run', SH)],
+     level_text='Deciding check: run-time contracts (outcome per Interest, pending-table invariant, no internal error, loop exception handler '
+                'silent) on the real NDNApp (both front-ends) over all event histories up to a stated length on a virtual-time loop. '
+                'Deductive fragment: PendingIntEntry.satisfy (done-guard, single completion) proved for all verdicts and future states.',
+     level_note='Bounded by history length and alphabet (see evidence.bounded); liveness rests on asyncio.wait_for.',
+     technique=T_BOUNDED)
+prop('C04', title='Incoming Interests reach exactly the handler of their longest registered prefix', level='proof',
+     bounded=[('bounded.c04', 'run', SH)],
+     level_text='Unbounded proof of appv2 _on_interest against the assumed pygtrie contract of longest_prefix: only the handler stored at the '
+                'longest attached prefix can be invoked, at most once, none when nothing matches; reply transmits iff now <= deadline and '
+                'returns True iff it sent. Representation independence of attach/detach and the legacy front-end/dispatcher are bounded.',
+     level_note='pygtrie (longest_prefix, setdefault, __delitem__) is assumed and validated at run time by the bounded stand-in; '
+                'create_task is modelled as eager execution.',
+     technique=T_MIXED)
+prop('C05', title='Nothing that requires validation reaches the application unvalidated', level='proof',
+     bounded=[('bounded.c05', 'run', SH)],
+     level_text='Unbounded proof for the current front-end: PendingIntEntry.satisfy maps every validator answer of any type (and a missing / '
+                'timed-out validator) to payload vs ValidationFailure carrying packet and verdict; _on_interest delivers a parameterised or '
+                'signed Interest only after a correct digest AND an accepting validator, plain Interests without consulting one. Deadline '
+                'behaviour and the legacy front-end are a bounded stand-in (one open known finding there).',
+     level_note='Validators and handlers are arbitrary callables modelled by assumed contracts; the clock is a ghost variable.',
+     technique=T_MIXED)
+prop('C06', title='Receive path: exact stream framing, and no failure on any delivered bytes', level='proof',
+     bounded=[('bounded.c06', 'run', SH)],
+     level_text='Unbounded proof that _receive of both front-ends returns normally for every (typ, bytes): every decoder below it has a '
+                'verified raise-set and every raised class is caught, incl. envelopes without fragment. Stream framing over all cut '
+                'positions and "unrelated Interests/handlers unaffected" are a bounded stand-in.',
+     level_note='parse of shipped model classes is summarised (contracts/parse_summary.py) on top of the generic TlvModel.parse proof; '
+                '_on_data/_on_nack/_on_interest are call-site summaries here (their own checks: C03/C04/C05).',
+     technique=T_MIXED)
+prop('C07', title='Packet decoders accept exactly the well-formed packets', level='proof', bounded=[('bounded.c07', 'run', SH)],
      level_text='Unbounded proof, per function, that the decoders (var-number codec, outer-element check, Name.decode, UintField widths, '
                 'the generic TlvModel.parse scan for an arbitrary field list) keep every nested element inside its parent, match recognised '
                 'elements once and in order, reject unrecognised critical ones, terminate in linear time and raise only documented errors. '
@@ -32,7 +87,7 @@ prop('C07', title='Packet decoders accept exactly the well-formed packets', leve
                 'covered by the bounded stand-in.',
      technique=T_DEDUCTIVE,
      assumptions=['Field subclasses satisfy the Field interface used in the generic TlvModel.parse proof (tied by per-class contracts)'])
-prop('C08', title='TLV models encode to exact, minimal TLV and decode back to equal values', level='proof', bounded=[],
+prop('C08', title='TLV models encode to exact, minimal TLV and decode back to equal values', level='proof', bounded=[('bounded.c08', 'run', SH)],
      level_text='Unbounded proof that var-numbers are written in shortest form, that every integer/boolean/byte-string/text field announces '
                 'exactly the size it then writes (smallest legal integer width, UTF-8 length for text), that the generic encoded_length/encode '
                 'drivers write the fields in declared order at consecutive offsets with total == announced for ANY field list, and that parse '
@@ -40,3 +95,22 @@ prop('C08', title='TLV models encode to exact, minimal TLV and decode back to eq
      level_note='Trusted: pyvc, z3, builtin models, the prefix-sum ghost axioms. Model-level parse(encode(m)) == m for generated classes is a '
                 'bounded stand-in, not part of the proof.',
      technique=T_DEDUCTIVE)
+
+prop('C09', title='Name representations (URI, component list, wire) are mutually consistent', level='proof',
+     bounded=[('bounded.c09', 'run', SH)],
+     level_text='Unbounded proof for the wire side: Name.decode (components tile exactly the declared length), Name.encode / encoded_length '
+                '(exact size, header), Component.from_bytes / from_number / get_type / get_value. URI text conversions, normalisation of input '
+                'forms, is_prefix and canonical ordering are a bounded stand-in (exhaustive over a small alphabet + random names).',
+     level_note='SMT string theory is too weak for the URI loops (DESIGN.md 6/C09); those functions are only covered by the bounded part.',
+     technique=T_MIXED)
+prop('C10', title='Link-layer envelopes are transparent: Nack, PIT token and wrapped packets', level='proof',
+     bounded=[('bounded.c10', 'run', SH)],
+     level_text='Unbounded proof: parse_lp_packet_v2 rejects a recognised FragIndex/FragCount and raises only documented errors; _receive '
+                'dispatches at most once per packet and a Nack header leads to _on_nack only; the reply of an Interest that arrived with a '
+                'PIT token is 64 L (62 |t| t)(50 |d| d) with identical token and unmodified payload (LpPacket unrolled), bare without token.',
+     level_note='Nack encode layout / reason codes up to 2^64-1 and several tokens in all orders are bounded.',
+     technique=T_MIXED)
+
+# harnesses still being written: not claimed yet
+for _p in ('C01', 'C02', 'C04', 'C06', 'C10'):
+    PROPS[_p]['claimed'] = False
